@@ -26,6 +26,7 @@ type c12UTXO struct {
 	Vout   uint32  `json:"vout"`
 	Script mon.Hex `json:"script"`
 	Value  uint64  `json:"value"`
+	Seq    uint32  `json:"seq,omitempty"` // what the supplier puts into UTXO.SequenceNumber (the funded input must be final regardless)
 }
 
 // c12Step is what the supplier does on its k-th call.
@@ -117,7 +118,7 @@ func (s *c12Supplier) next(ctx context.Context, deficit uint64) ([]*bt.UTXO, err
 			batch[len(batch)-1].Value = v
 		}
 		for i := range batch {
-			out = append(out, &bt.UTXO{TxID: cp(batch[i].TxID), Vout: batch[i].Vout, Satoshis: batch[i].Value, LockingScript: bscriptOf(batch[i].Script)})
+			out = append(out, &bt.UTXO{TxID: cp(batch[i].TxID), Vout: batch[i].Vout, Satoshis: batch[i].Value, LockingScript: bscriptOf(batch[i].Script), SequenceNumber: batch[i].Seq})
 			if st.Kind == "batch" {
 				s.model.Ins = append(s.model.Ins, refmoney.In{PrevScript: batch[i].Script, Sats: batch[i].Value})
 			}
@@ -190,6 +191,37 @@ func init() {
 					}
 				}
 			}
+		}
+		c.Phase("many-small-batches") // the input count crosses the 252/253 varint boundary through batches of a few UTXOs each
+		nb := uint64(24)
+		if c.Thorough {
+			nb = 400
+		}
+		for i := uint64(0); i < nb; i++ {
+			if !c.Case(i) {
+				continue
+			}
+			r := c.Rand(i)
+			in := &c12In{}
+			s, b := prng.Pick(r, []int{1, 5, 50, 500}), prng.Pick(r, []int{1, 3, 100, 1000})
+			in.Quote = mQuote{StdSat: s, StdBytes: b, DataSat: s, DataBytes: b}
+			in.Tx.Version = 1
+			in.Tx.Outs = []mOuts{{Sats: 1_000_000 + uint64(r.Intn(1000)), Script: gen.P2PKH(r.Bytes(20))}}
+			per := 1 + r.Intn(4)
+			batches := 240/per + r.Intn(40)
+			for k := 0; k < batches; k++ {
+				st := c12Step{Kind: "batch"}
+				for j := 0; j < per; j++ {
+					st.UTXOs = append(st.UTXOs, c12UTXO{TxID: r.Bytes(32), Vout: uint32(j), Script: gen.P2PKH(r.Bytes(20)), Value: uint64(1 + r.Intn(40))})
+				}
+				in.Steps = append(in.Steps, st)
+			}
+			// and then batches that exactly cover / miss by one
+			in.Steps = append(in.Steps, c12Step{Kind: "batch", Target: "cover", Delta: int64(r.Intn(3) - 1),
+				UTXOs: []c12UTXO{{TxID: r.Bytes(32), Vout: 0, Script: gen.P2PKH(r.Bytes(20)), Value: 1}}})
+			in.Steps = append(in.Steps, c12Step{Kind: "batch", Target: "cover", Delta: 0,
+				UTXOs: []c12UTXO{{TxID: r.Bytes(32), Vout: 1, Script: gen.P2PKH(r.Bytes(20)), Value: 1}}})
+			judge(c, in)
 		}
 		c.Phase("histories")
 		N := uint64(100000)
@@ -330,6 +362,9 @@ func c12Make(r *prng.R) *c12In {
 			}
 			for i := 0; i < n; i++ {
 				u := c12UTXO{TxID: r.Bytes(32), Vout: gen.U32(r), Script: gen.P2PKH(r.Bytes(20))}
+				if r.Chance(1, 2) {
+					u.Seq = gen.U32(r)
+				}
 				switch r.Intn(5) {
 				case 0:
 					u.Value = 0
@@ -399,7 +434,7 @@ func c12MakeEnum(r *prng.R, kinds []string, start string, q mQuote) *c12In {
 		st := c12Step{Kind: "batch"}
 		mk := func(n int, v func() uint64) {
 			for i := 0; i < n; i++ {
-				st.UTXOs = append(st.UTXOs, c12UTXO{TxID: r.Bytes(32), Vout: uint32(r.Intn(8)), Script: gen.P2PKH(r.Bytes(20)), Value: v()})
+				st.UTXOs = append(st.UTXOs, c12UTXO{TxID: r.Bytes(32), Vout: uint32(r.Intn(8)), Script: gen.P2PKH(r.Bytes(20)), Value: v(), Seq: prng.Pick(r, []uint32{0, 0, 1, 7, 0xfffffffe, 0xffffffff})})
 			}
 		}
 		switch k {
